@@ -54,7 +54,7 @@ def main():
         return 1
     dst = f'/verif/seeded/{aid}'; os.makedirs(dst, exist_ok=True)
     for f in ('patch.diff', 'demo_test.go'): shutil.copy(os.path.join(cand, f), dst)
-    meta['ran'] = ran; meta['confirmed_by_me'] = ok; meta['round'] = 5
+    meta['ran'] = ran; meta['confirmed_by_me'] = ok; meta['round'] = int(os.environ.get('SEED_ROUND', '5'))
     meta['confirmation_cmds'] = ['tools/confirmseed.py <candidate> <id> (scratch worktree of /repo HEAD: git apply; go build ./...; go test -vet=off -count=1 ./... retried while the only failure is the flaky 2 ms evaluation limit; demo with the change must fail; git checkout -- .; demo must pass; worktree removed)']
     json.dump(meta, open(os.path.join(dst, 'meta.json'), 'w'), indent=1)
     return 0
